@@ -61,6 +61,7 @@ import (
 	"pgregory.net/rapid"
 
 	"verif/internal/cat"
+	"verif/internal/compose"
 	"verif/internal/ev"
 	"verif/internal/memfs"
 	"verif/internal/run"
@@ -88,6 +89,13 @@ type Case struct {
 	Recheck bool          `json:"recheck,omitempty"`
 	Defs    []cat.Program `json:"defs,omitempty"` // programs defined by the case itself (generated ones, replays)
 	Steps   []Step        `json:"steps,omitempty"`
+	// Gen: generated composition programs (verif/internal/compose), available to the steps as
+	// gen0, gen1, ... Join: the programs defined by the case live on ONE engine over the union
+	// of their files when that union is conflict-free (see joinable), else on engines of their own.
+	Gen  []compose.Case `json:"gen,omitempty"`
+	Join bool           `json:"join,omitempty"`
+
+	joined bool // decided by check before the history runs
 }
 
 func (s Step) k() int {
@@ -397,6 +405,22 @@ func newWorld(c Case) (*world, error) {
 			}
 		}
 	}
+	if c.joined {
+		// the programs defined by the case on one engine over the union of their files
+		files, opts, _ := joinFiles(c.Defs)
+		var entries []string
+		for _, st := range c.Steps {
+			if _, isDef := lookupDef(c, st.Prog); isDef {
+				entries = append(entries, st.Entry)
+			}
+		}
+		eng := newEngineFor(cat.Program{Opts: opts}, memfs.FromMap(files), entries)
+		for _, st := range c.Steps {
+			if p, isDef := lookupDef(c, st.Prog); isDef && w.seats[st.Prog] == nil {
+				w.seats[st.Prog] = &seat{p: p, eng: eng, page: p.Name + ".vuego"}
+			}
+		}
+	}
 	for _, st := range c.Steps {
 		if w.seats[st.Prog] != nil {
 			continue
@@ -590,6 +614,7 @@ func check(c Case) error {
 	if len(c.Steps) == 0 {
 		return nil
 	}
+	c = c.full()
 	// resolve, and compute every reference BEFORE anything of this history runs
 	defRefs := map[refKey]result{}
 	type plan struct {
@@ -618,6 +643,7 @@ func check(c Case) error {
 	if c.Shared {
 		sharedSet()
 	}
+	c.joined = joinable(c, func(p cat.Program, entry string, v int) (result, error) { return refFor(c, defRefs, p, entry, v) })
 
 	if c.Mode == "probe" {
 		st, pl := c.Steps[0], plans[0]
@@ -730,6 +756,7 @@ func rebase() error {
 // ---- classification
 
 func classify(c Case) (bool, []string) {
+	c = c.full()
 	mode := c.Mode
 	if mode == "" {
 		mode = "history"
@@ -757,7 +784,7 @@ func classify(c Case) (bool, []string) {
 			continue
 		}
 		set["entry="+st.Entry] = true
-		if _, inline := lookupDef(c, st.Prog); inline {
+		if _, inline := lookupDef(c, st.Prog); inline && st.Prog == "gen" {
 			set["generated-program"] = true
 			for _, el := range strings.Split(p.Files["page.vuego"], "<p ")[1:] {
 				el = el[:strings.Index(el, ">")]
@@ -857,6 +884,17 @@ func classify(c Case) (bool, []string) {
 	}
 	if len(last) > 1 {
 		set[fmt.Sprintf("programs=%d", len(last))] = true
+	}
+	if len(c.Gen) > 0 {
+		// composition family: non-trivial = the program has an include or a slot and is rendered
+		// at least twice on the engine
+		renders := 0
+		for _, st := range c.Steps {
+			if st.Prog == "gen0" {
+				renders += st.k()
+			}
+		}
+		nontrivial = composeClasses(c, set) && renders >= 2
 	}
 	out := make([]string, 0, len(set))
 	for k := range set {
@@ -1205,6 +1243,7 @@ func TestProp(t *testing.T) {
 
 	run.Rapid(t, rec, "history", genHistory, classify, check)
 	run.Rapid(t, rec, "hazard", genHazard, classify, check)
+	run.Rapid(t, rec, "compose", genCompose, classify, check)
 
 	// the whole table once more, on fresh engines, after everything else ran
 	if run.First() {
